@@ -53,7 +53,12 @@ def parse_res(x):
             r.status = "exc"
             r.exc = payload
     if r.status is None:
-        raise terms.TransportError("no status record in %r" % (x.get("o", "")[:300],))
+        # the query returned to the host normally (no panic, crash or hang) but the driver never
+        # wrote its closing record: the goal took the driver's own control flow with it (never
+        # seen on a tree where catch/3 and call/N work). An abnormal ending of this case, not a
+        # transport problem.
+        r.abn = "no-status: the query ended without the driver's status record (%d solution records)" % len(r.sols)
+        return r
     return r
 
 
